@@ -31,6 +31,11 @@ pub mod c17;
 
 use engine::{Property, Tier};
 
+/// Counting allocator (thread-local counters, active only inside
+/// `c04::walk::measure`): the deterministic proxy for the memory bound of C04.
+#[global_allocator]
+static ALLOC: c04::walk::CountingAlloc = c04::walk::CountingAlloc;
+
 /// Hidden property exercising the watchdog (`VERIF_SELFTEST=hang`, expect exit
 /// 2) and the crash isolation of the driver (`VERIF_SELFTEST=abort`, expect a
 /// VIOLATION naming the case 1234).
